@@ -391,9 +391,25 @@ class World:
             out, ctls = chains[ci]
             who = rng.choice(ctls + [out] + ([mods['free']] if 'free' in cfg else []))
             via = rng.choice(['module', 'wire'])
+            if who in ctls and rng.random() < 0.25:
+                via = 'regulate'       # the controller's driver pushes an output value, whether it is in control or not
             case['ops'].append([who.name, via])
             before = [state(c) for c in chains]
             try:
+                if via == 'regulate':
+                    out.update_target(who.name, float(step))
+                    r.count('control_regulate_ops')
+                    changed = [cj for cj, c in enumerate(chains) if state(c) != before[cj]]
+                    if changed:
+                        r.violation('C18/control/update-target-changes-control',
+                                    f'{who.name} pushed an output value (update_target): chain {changed[0]} went from {before[changed[0]]} to {state(chains[changed[0]])}', case)
+                        break
+                    one = [c.name for c in ctls if c.control_active]
+                    cbn = getattr(out.controlled_by, 'name', out.controlled_by)
+                    if len(one) > 1 or (one and cbn != one[0]) or (not one and cbn != 'self' and prev_active.get(ci)):
+                        r.violation('C18/control/output-names-wrong-controller', f'after update_target by {who.name}: controlled_by = {cbn}, active = {one}', case)
+                        break
+                    continue
                 if via == 'module':
                     who.write_target(float(step))
                 else:
